@@ -343,7 +343,7 @@ class Harness:
             t0, t1 = t0 / self.t_scale, t1 / self.t_scale
         self.t0, self.t1 = t0, t1
         gr = None
-        if self.get_regime:
+        if self.get_regime is not False and self.get_regime is not None:
             def gr(t, x):
                 tr_self.regime_calls.append((t, x))
                 return core.DeformationRegime(self.get_regime)
